@@ -75,6 +75,8 @@ def check(col: Collector, tier: str):
     from sa.props._tr import check_finder
     col.floor("C09.R10", 4)
     check_finder(col, "C09.R10", repo)
+    from sa.props._tr import check_finder_receivers
+    check_finder_receivers(col, "C09.R10", repo)
 
 
 # ---------------------------------------------------------------------- R1
